@@ -378,7 +378,7 @@ class CallMixin:
                 p.arr = z3.Store(p.arr, p.len, xv)
                 p.len = p.len + 1
             elif isinstance(p, GhostSeqP):
-                p.items.append(x)
+                p.append(x)
             elif isinstance(p, RecListP):
                 self.reclist_append(p, x)
             else:
